@@ -4,7 +4,7 @@ import OdxVerif.Spec.Attribution
     (decode (strict t|f) (msg HEX) (walk HEX) (layer (gnrs CO*) (svc NAME (req CO?) (pos CO*) (neg CO*))*))
        CO = (co NAME OUTCOME P*)   OUTCOME = ok|mismatch|error|foreign  (oracle for `msg`)
        P  = (c HEX) | (m POS LEN) | (o)
-       → (ok (cands N*) (res ok (N N|none)*)|(res err decode|foreign) (attr (N (CO HEX)*)*) (unamb t|f))
+       → (ok (cands N*) (res ok (N N)*)|(res err decode|foreign) (attr (N (CO HEX)*)*) (unamb t|f))
          cands = tree walk over `walk`; res = model `_decode(msg, cands)`; attr = spec: attributed services
          for `msg`, each with its matching coding objects and their constant prefixes
     (info (layer …))
@@ -57,9 +57,7 @@ def natsStr (xs : List Nat) : String := " ".intercalate (xs.map toString)
 def keyStr : Option Byte → String
   | none => "none" | some b => toString b
 
-def msgStr (m : Msg) : String :=
-  let c := match m.2 with | some c => toString c.name | none => "none"
-  s!"({m.1.name} {c})"
+def msgStr (m : Msg) : String := s!"({m.1.name} {m.2.name})"
 
 def handle (sx : Sexp) : String :=
   match sx with
